@@ -72,6 +72,7 @@ PROPS['C16'] = {
         thm('EmmetProps.C16_html_match_is_first_outward', 'HTML: match() equals the first entry of balanced_outward(), for EVERY source, position and mode (any event list)'),
         thm('EmmetProps.C16_html_outward_nested', 'HTML: successive balanced_outward() entries strictly contain each other (innermost first), for EVERY source, position and mode'),
         thm('EmmetProps.C16_html_inward_nested', 'HTML: successive balanced_inward() entries lie strictly inside each other, for EVERY source, position and mode'),
+        thm('EmmetProps.C16_html_inward_at_position', 'HTML: the first entry of balanced_inward() contains the position, for EVERY source, position and mode'),
         thm('EmmetProps.C16_html_outward_contains', 'HTML: every entry of balanced_outward() strictly contains the position, for EVERY source, position and mode'),
         thm('EmmetProps.C16_html_scan', 'every string, any special-tag table: the HTML scanner model is total and every reported tag is an in-range slice starting with < and ending with >, in increasing non-overlapping order'),
         thm('EmmetProps.C16_css_scan', 'every source (unbalanced braces, unterminated strings and comments included): the CSS scanner model is total and every reported token has 0 <= start <= end <= len(source), its delimiter is -1 or an index into the source'),
